@@ -123,6 +123,28 @@ func isZstd(b []byte) bool {
 	return len(b) > 4 && b[0] == 0x28 && b[1] == 0xb5 && b[2] == 0x2f && b[3] == 0xfd
 }
 
+// streamErr: a stored layer that is compressed must be a complete stream (final block and checksum present)
+func streamErr(b []byte) error {
+	if isZstd(b) {
+		zr, err := zstd.NewReader(bytes.NewReader(b))
+		if err != nil {
+			return err
+		}
+		defer zr.Close()
+		_, err = io.Copy(io.Discard, zr)
+		return err
+	}
+	if len(b) > 2 && b[0] == 0x1f && b[1] == 0x8b {
+		zr, err := gzip.NewReader(bytes.NewReader(b))
+		if err != nil {
+			return err
+		}
+		_, err = io.Copy(io.Discard, zr)
+		return err
+	}
+	return nil
+}
+
 // decompress: gzip and zstd by their magic numbers, anything else as it is
 func decompress(b []byte) []byte {
 	if isZstd(b) {
@@ -364,6 +386,9 @@ func audit(get store, d string, depth int, seen map[string]bool) string {
 		if isImageCfg && lb != nil {
 			if i >= len(cfg.RootFS.DiffIDs) {
 				return fmt.Sprintf("config has %d diff_ids for %d layers", len(cfg.RootFS.DiffIDs), len(m.Layers))
+			}
+			if err := streamErr(lb); err != nil {
+				return fmt.Sprintf("layer %d (%s) is not a complete compressed stream: %v", i, l.MediaType, err)
 			}
 			uc := decompress(lb)
 			if want := shaA(algOf(cfg.RootFS.DiffIDs[i]), uc); want != cfg.RootFS.DiffIDs[i] {
